@@ -237,14 +237,8 @@ fn unit_stream(cases: &mut Cases, rng: &mut Rng, thorough: bool) {
             }
         }
     }
-    if thorough {
-        // dictionary with > 65535 entries (u32 indices): > 131072 rows
-        let n = 131_080usize;
-        let cells: Vec<Cell> = (0..n).map(|i| Cell::Str(format!("{:x}", (i * 7) % 65_540))).collect();
-        unit_case(cases, &cells, 0, false, "str-dict32");
-        let mut cells2 = cells.clone(); cells2[5] = Cell::Null; cells2[n - 1] = Cell::Null;
-        unit_case(cases, &cells2, 0, false, "str-dict32");
-    }
+    // (a dictionary with > 65535 entries — u32 indices — needs > 131072 rows; the list-based Lean driver is quadratic in
+    // the dictionary / packed size, so that shape is left to the theorems, which are for all index widths)
     // all-NULL column (Column::null) of several lengths
     for &n in lens { unit_case(cases, &vec![Cell::Null; n], rng.below(6), false, "null"); }
 }
